@@ -111,6 +111,50 @@ theorem no_lost_stop {σ : State} {a : Nat} {n : Node}
   have hop : n.op = some 1 := by rw [Node.op_iff]; omega
   simp [step, actorStep, ha, hk, hop, hi, hc, actParentRecvBreaks]
 
+/-- Every way of asking a supervisor task to stop is heard by its select loop: `Supervisor::stop`'s
+mailbox message, the parent's broadcast, and the parent side going away. -/
+theorem stop_request_is_heard (σ : State) (n : Node)
+    (h : n.stopReq = true ∨ n.pending = true ∨ σ.parentClosed n = true) :
+    σ.canBreak n = true := by
+  rcases h with h | h | h <;>
+    simp [State.canBreak, h, supParentRecvBreaks, supMboxStopBreaks]
+
+/-- An actor that is between two messages observes a waiting stop: the step that takes it to its
+cleanup is enabled (and `run` is not entered again, see `no_message_after_stop_observed`). -/
+theorem pending_stop_is_observable {σ : State} {a : Nat} {n : Node}
+    (ha : σ.nodes a = some n) (hk : n.kind = .actor) (hl : n.pc = 1) (hi : n.inStep = false)
+    (hp : n.pending = true) : (step σ (.seeStop a)).isSome = true := by
+  have hop : n.op = some 1 := by rw [Node.op_iff]; omega
+  simp [step, actorStep, ha, hk, hop, hi, hp, actParentRecvBreaks]
+
+/-- `Runtime::exec` leaves its loop on Terminate and Interrupt only. -/
+theorem exec_leaves_loop_on_terminate_and_interrupt :
+    execSignalBreaks = [true, true, false, false, false, false] := by decide
+
+/-- **No deadlock while stopping** (the safety half of liveness).  As long as nothing was registered
+on a supervisor after its broadcast, a supervisor that can leave its loop, or has left it, and has
+not completed always has a task below it (or itself) whose next step is enabled: with every actor
+step terminating and a fair scheduler the stop therefore completes.  Fairness and termination of
+the actor callbacks are the trusted part. -/
+theorem stopping_makes_progress {σ : State} (h : Reach σ)
+    (hno : ∀ i n, σ.nodes i = some n → n.late = false) {s : Nat} {sn : Node}
+    (hs : σ.nodes s = some sn) (hk : sn.kind = .sup)
+    (hb : σ.canBreak sn = true ∨ 1 ≤ sn.pc) (hnd : sn.done = false) :
+    ∃ d, Desc σ s d ∧ Enabled σ d :=
+  stopping_progress_aux h.inv hno (σ.size - s) s sn (Nat.le_refl _) hs hk hb hnd
+
+example : ∃ σ s sn, Reach σ ∧ (∀ i n, σ.nodes i = some n → n.late = false) ∧
+    σ.nodes s = some sn ∧ sn.kind = .sup ∧ 1 ≤ sn.pc ∧ sn.done = false := by
+  have hr : run init [.spawnSup none, .spawnSup (some 0), .spawnActor 1, .stopReq 1, .supStep 1]
+      = some _ := rfl
+  refine ⟨_, 1, _, reach_run Reach.init hr, ?_, rfl, rfl, by decide, rfl⟩
+  intro i n hi
+  have h3 : i < 3 := (reach_run Reach.init hr).inv.lt_size hi
+  match i, h3 with
+  | 0, _ => injection hi with hi; subst hi; rfl
+  | 1, _ => injection hi with hi; subst hi; rfl
+  | 2, _ => injection hi with hi; subst hi; rfl
+
 /-- The statement for *all* descendants, including tasks registered on a subordinate handle
 after that subordinate's task has completed. -/
 def stop_full : Prop :=
@@ -130,5 +174,35 @@ theorem stop_full_false : ¬ stop_full := by
   injection hdn with hdn
   subst hdn
   simp [Node.done, Node.prog, actorRun] at hdd
+
+/-- The progress statement without the no-late-registration premise. -/
+def progress_full : Prop :=
+  ∀ σ, Reach σ → ∀ s sn, σ.nodes s = some sn → sn.kind = .sup → 1 ≤ sn.pc → sn.done = false →
+    ∃ d, Desc σ s d ∧ Enabled σ d
+
+/-- It is false of the code: primary 0, supervisor 1, subordinate 2 of 1 hosting actor 3; stop 1;
+3 completes; before task 2 is polled again actor 4 is spawned on handle 2 (`subscribe()` re-opens
+the channel, 4 never gets the message): 2 waits for 4, 1 waits for 2, 4 waits for 2 — no task of
+the system can move, `stop` never returns. -/
+theorem progress_full_false : ¬ progress_full := by
+  intro hf
+  have hr : run init [.spawnSup none, .spawnSup (some 0), .spawnSup (some 1), .spawnActor 2,
+      .setupDone 3, .stopReq 1, .supStep 1, .supStep 1, .supStep 2, .supStep 2, .seeStop 3,
+      .cleanupDone 3, .spawnActor 2, .setupDone 4] = some _ := rfl
+  have hreach := reach_run Reach.init hr
+  obtain ⟨d, _, e, he, hs⟩ := hf _ hreach 1 _ rfl rfl (by decide) rfl
+  have hd : d < 5 ∨ 5 ≤ d := by omega
+  rcases hd with hd | hd
+  · simp only [List.mem_cons, List.mem_nil_iff, or_false] at he
+    match d, hd with
+    | 0, _ => rcases he with rfl | rfl | rfl | rfl | rfl <;> revert hs <;> decide
+    | 1, _ => rcases he with rfl | rfl | rfl | rfl | rfl <;> revert hs <;> decide
+    | 2, _ => rcases he with rfl | rfl | rfl | rfl | rfl <;> revert hs <;> decide
+    | 3, _ => rcases he with rfl | rfl | rfl | rfl | rfl <;> revert hs <;> decide
+    | 4, _ => rcases he with rfl | rfl | rfl | rfl | rfl <;> revert hs <;> decide
+  · have hn := hreach.inv.bound d hd
+    simp only [List.mem_cons, List.mem_nil_iff, or_false] at he
+    rcases he with rfl | rfl | rfl | rfl | rfl <;>
+      simp [step, actorStep, Kanidm.Actors.supStep, hn] at hs
 
 end Kanidm.Actors
